@@ -123,9 +123,12 @@ def judgeLine (line : String) : String :=
       match segs.reverse with
       | last :: restRev =>
         if !last.startsWith "final:" then "violates unparsable-observation" else
+        let opNames := (words inp).drop 5 |>.map (fun op => (op.splitOn ":").headD "")
+        let ours := opNames.map (fun n => ["resp", "blk2", "cont", "bad", "ack", "rst", "pong"].contains n)
         match parsePoint (last.drop 6).toString, restRev.reverse.mapM parsePoint with
         | some fin, some pts =>
-          match Spec.Quiescence.judge pts fin with
+          let pts3 := (pts.zip (ours ++ List.replicate pts.length false)).map (fun (p, o) => (p.1, p.2, o))
+          match Spec.Quiescence.judge pts3 fin with
           | none => "ok"
           | some c => s!"violates {c}"
         | _, _ => "violates unparsable-observation"
@@ -141,7 +144,7 @@ def classes : String :=
     "observations", "endpointQueues", "multicastRequests", "multicastHandler"]
   String.intercalate " " (names.map fun n =>
     let cls := (sites.filter (·.table == n)).map (fun s => match classify s.removal with
-      | some .bracket => "bracket" | some .expiring => "expiring" | some .bracketExpiring => "bracket+expiring"
+      | some .bracket => "bracket" | some .handle => "handle" | some .expiring => "expiring" | some .bracketExpiring => "bracket+expiring"
       | some .live => "live" | none => "NONE")
     s!"{n}={String.intercalate "/" cls}")
 
